@@ -5,5 +5,6 @@ CONSTANTS
   MaxName = 255
 INVARIANT Inverse
 INVARIANT MessageInverse
+INVARIANT PtrInverse
 INVARIANT Emit
 CHECK_DEADLOCK FALSE
